@@ -248,7 +248,9 @@ def read_skip_env(src, expr):
     EOFError: ...
     """
     def condition(s): return s.startswith('\\end{%s}' % expr.name)
-    contents = [src.forward_until(condition, peek=False)]
+    contents = []
+    if src.hasNext():
+        contents.append(src.forward_until(condition, peek=False))
     if not src.startswith('\\end{%s}' % expr.name):
         unclosed_env_handler(src, expr, src.peek((0, 6)))
     src.forward(5)
